@@ -47,7 +47,7 @@ def cache_dir():
     return d
 
 
-def build_one(zname, cfg, extra_flags=(), tag=''):
+def build_one(zname, cfg, extra_flags=(), tag='', libs=()):
     """returns path of the binary for (zoo, cfg); builds it when missing"""
     import zoo as zoomod
     import emit
@@ -67,7 +67,7 @@ def build_one(zname, cfg, extra_flags=(), tag=''):
         os.replace(tmpn, src)
     std = 'c++' + z.cxx
     cmd = ['g++', f'-std={std}', '-O0', '-fno-access-control', '-w', f'-DVF_CFG={CFGS[cfg]}',
-           f'-I{REPO}/include', f'-I{VERIF}/harness', *extra_flags, src, '-o', exe + f'.{os.getpid()}.tmp']
+           f'-I{REPO}/include', f'-I{VERIF}/harness', *extra_flags, src, '-o', exe + f'.{os.getpid()}.tmp', *libs]
     r = subprocess.run(cmd, capture_output=True, text=True)
     if r.returncode != 0:
         with open(exe + '.log', 'w') as fh:
